@@ -837,7 +837,15 @@ def check_cp(inp):
     from musiclang.transform.composing import create_counterpoint_on_score
     score = score_of(inp)
     try:
-        out = create_counterpoint_on_score(score, fixed_parts=list(inp['fixed']))
+        if inp.get('moving') is not None:
+            # the moving parts named explicitly, in the caller's order (seed C19-6 extracted them sorted and wrote them
+            # back unsorted), as a list or a tuple
+            mv = list(inp['moving'])
+            out = create_counterpoint_on_score(score, list(inp['fixed']), tuple(mv) if inp.get('moving_tuple') else mv)
+        elif inp.get('via') == 'method':
+            out = score.get_counterpoint(list(inp['fixed']))
+        else:
+            out = create_counterpoint_on_score(score, fixed_parts=list(inp['fixed']))
     except Exception as e:
         return {'observed': f'{type(e).__name__}: {e}', 'expected': 'a score'}
     bad = []
@@ -964,7 +972,15 @@ def oracle(ctx):
     for _ in range(ctx.n(60, 1000)):
         score, parts = rand_cp_score(rng)
         inp = {'score': dump_score(score), 'fixed': [parts[0]] if rng.random() < 0.8 else parts[:2]}
-        ctx.count('oracle', key='cp' + str(inp), bucket=['cp', f'cp:chords={len(score.chords)}'])
+        x = rng.random()
+        if x < 0.35:
+            mv = [p for p in parts if p not in inp['fixed']]
+            rng.shuffle(mv)
+            inp.update(moving=mv, moving_tuple=rng.random() < 0.3)
+        elif x < 0.5:
+            inp['via'] = 'method'
+        ctx.count('oracle', key='cp' + str(inp), bucket=['cp', f'cp:chords={len(score.chords)}',
+                                                         'cp:' + ('explicit moving parts' if 'moving' in inp else inp.get('via', 'function'))])
         r = check_cp(inp)
         if r:
             ctx.fail('cp:' + (r['observed'][0].split(' ')[0] if isinstance(r['observed'], list) else 'crash'), inp,
